@@ -13837,8 +13837,12 @@ This indicates a bug inside LDK. Please report this error at https://github.com/
 						);
 						let responses = try_channel_entry!(self, peer_state, res, chan_entry);
 						let mut channel_update = None;
+						let mut shutdown_msg_event = None;
 						if let Some(msg) = responses.shutdown_msg {
-							peer_state.pending_msg_events.push(MessageSendEvent::SendShutdown {
+							// Our `shutdown` is retransmitted only after any `update_add_htlc`s we sent before
+							// it (see below): a peer which sees them in the opposite order has to treat the
+							// retransmitted HTLCs as additions to a channel which is shutting down, and closes it.
+							shutdown_msg_event = Some(MessageSendEvent::SendShutdown {
 								node_id: counterparty_node_id.clone(),
 								msg,
 							});
@@ -13875,6 +13879,9 @@ This indicates a bug inside LDK. Please report this error at https://github.com/
 						);
 						debug_assert!(htlc_forwards.is_empty());
 						debug_assert!(decode_update_add_htlcs.is_none());
+						if let Some(shutdown) = shutdown_msg_event {
+							peer_state.pending_msg_events.push(shutdown);
+						}
 						if let Some(upd) = channel_update {
 							peer_state.pending_msg_events.push(upd);
 						}
